@@ -4,6 +4,7 @@ go 1.23
 
 require (
 	github.com/google/inverting-proxy v0.0.0
+	github.com/gorilla/websocket v1.5.0
 	golang.org/x/net v0.23.0
 	pgregory.net/rapid v1.3.0
 )
